@@ -1101,10 +1101,11 @@ def suite_words(tier, seed):
         def slots(dev):
             cfg = 'Slots_%s.cfg' % (dev.strip('{}"') or 'none')
             with open(os.path.join(md, cfg), 'w') as f:
-                f.write('SPECIFICATION Spec\nCONSTANTS\n MaxSz = %d\n MaxCount = %d\n Dev = %s\nINVARIANT TheoremInv\nCHECK_DEADLOCK FALSE\n' % (msz, mcnt, dev))
+                f.write('SPECIFICATION Spec\nCONSTANTS\n MaxSz = %d\n MaxCount = %d\n Dev = %s\nINVARIANT TheoremInv\nINVARIANT MoveInv\nCHECK_DEADLOCK FALSE\n' % (msz, mcnt, dev))
             rc, out, dt = vlib.tlc(md, 'Slots', cfg, workers=2, timeout=2400, heap='4g')
-            return dict(dev=dev, ok='No error has been found' in out, refuted='TheoremInv is equal to FALSE' in out)
-        ss = pmap(slots, ['{}', '{"F09"}', '{"shiftLeftTrait"}'], workers=3)
+            which = 'MoveInv' if dev in ('{"F27"}', '{"F28"}') else 'TheoremInv'
+            return dict(dev=dev, ok='No error has been found' in out, refuted=('%s is equal to FALSE' % which) in out)
+        ss = pmap(slots, ['{}', '{"F09"}', '{"shiftLeftTrait"}', '{"F27"}', '{"F28"}'], workers=5)
         sbad = [r for r in ss if (r['dev'] == '{}' and not r['ok']) or (r['dev'] != '{}' and not r['refuted'])]
         if sbad:
             raise InfraError('MODEL-ERROR: Slots: %s' % json.dumps(sbad))
@@ -1121,7 +1122,9 @@ def suite_words(tier, seed):
                            sample_walk=[dict(note='refinement DecodeOK /\\ Contract holds on every reachable state; with Dev={"F01"} and Dev={"F07"} TLC finds the counterexample',
                                              counterexamples_found=[(r['n'], r['dev']) for r in rs if r['dev'] != '{}' and r['violated']]),
                                         dict(note='SlotsTheorem (shifting helpers, both trait variants, every size / position / count / throw index) holds; '
-                                                  'refuted by TLC for Dev={"F09"} and Dev={"shiftLeftTrait"}', instances=ninst, MaxSz=msz, MaxCount=mcnt)]))
+                                                  'refuted by TLC for Dev={"F09"} and Dev={"shiftLeftTrait"}; MoveTheorem (element moves that throw: nothing '
+                                                  'misapplied, nothing leaked, for every index of the throwing move) holds; refuted for Dev={"F27"} and Dev={"F28"}',
+                                             instances=ninst, MaxSz=msz, MaxCount=mcnt)]))
         res['mc']['transitions'] += ninst
         return dict(results=[res])
     return cached_suite('words', tier, seed, compute)
